@@ -171,11 +171,11 @@ func (s *session) classify() error {
 			return err
 		}
 		still := map[int]map[string]bool{}
-		for _, bc := range bad {
-			i := caseOf[bc.Index]
+		_, _, pairs := groupBad(bad)
+		for k, ps := range pairs {
+			i := caseOf[k]
 			still[i] = map[string]bool{}
-			_, pairs := failures(bc.Info)
-			for _, p := range pairs {
+			for _, p := range ps {
 				if p.i == 0 && p.j == 1 {
 					still[i][strings.TrimPrefix(p.what, "agree-")] = true
 				}
